@@ -120,6 +120,88 @@ fn one(rep: &mut Report, frags: &[Vec<Vec<u8>>], class: &str, table: &mut HashMa
     }
 }
 
+/// a sink that keeps small writes literally and only the length of large ones
+enum Tok {
+    Lit(Vec<u8>),
+    Big(u64),
+}
+struct Sketch(Vec<Tok>);
+impl WriteBytes for Sketch {
+    fn write(&mut self, slice: &[u8]) {
+        if slice.len() <= 64 {
+            if let Some(Tok::Lit(v)) = self.0.last_mut() {
+                v.extend_from_slice(slice);
+            } else {
+                self.0.push(Tok::Lit(slice.to_vec()));
+            }
+        } else {
+            self.0.push(Tok::Big(slice.len() as u64));
+        }
+    }
+}
+
+/// pieces of 2 GiB .. 6 GiB (zero pages that are never touched: the encoder only forwards slices):
+/// length prefixes must be the full 64-bit little-endian length
+#[cfg(not(miri))]
+fn huge_pieces(opts: &Opts, rep: &mut Report) {
+    if opts.shard != 5 % opts.nshards && opts.only.is_none() {
+        return;
+    }
+    let zeros = vec![0u8; (1usize << 32) + 64];
+    let lens: &[u64] = &[(1 << 31) - 1, 1 << 31, (1 << 31) + 1, (1 << 32) - 1, 1 << 32, (1 << 32) + 7, 3 << 31, 5 << 31];
+    for &total in lens {
+        for split in [1u64, 2, 3] {
+            // the piece as `split` fragments
+            let part = total / split;
+            let sizes: Vec<u64> = (0..split).map(|i| if i + 1 == split { total - part * (split - 1) } else { part }).collect();
+            if sizes.iter().any(|&z| z as usize > zeros.len()) {
+                continue;
+            }
+            let frs: Vec<&[u8]> = sizes.iter().map(|&z| &zeros[..z as usize]).collect();
+            let piece_len: u64 = frs.iter().map(|f| f.len() as u64).sum();
+            let small: &[u8] = b"tail";
+            let mut sk = Sketch(vec![]);
+            let r = guard(|| pre_auth_encode([&[&b"hdr"[..]][..], &frs[..], &[small][..]], &mut sk));
+            let d = |what: &str| json!({"piece_lengths": [3, piece_len, 4], "fragments_of_the_long_piece": split, "what": what});
+            rep.case("huge-piece", fnv_parts(&[&total.to_le_bytes(), &split.to_le_bytes()]), true);
+            if let Err(pn) = r {
+                rep.violation("C15|pae|panic", d(&pn));
+                continue;
+            }
+            // re-read the sketch: LE64(3) LE64(3) "hdr" LE64(piece_len) <piece_len bytes> LE64(4) "tail"
+            let mut want_prefix = vec![];
+            want_prefix.extend_from_slice(&3u64.to_le_bytes());
+            want_prefix.extend_from_slice(&3u64.to_le_bytes());
+            want_prefix.extend_from_slice(b"hdr");
+            want_prefix.extend_from_slice(&piece_len.to_le_bytes());
+            let mut want_suffix = vec![];
+            want_suffix.extend_from_slice(&4u64.to_le_bytes());
+            want_suffix.extend_from_slice(b"tail");
+            let mut lits: Vec<u8> = vec![];
+            let mut big = 0u64;
+            let mut order_ok = true;
+            for t in &sk.0 {
+                match t {
+                    Tok::Lit(v) => lits.extend_from_slice(v),
+                    Tok::Big(n) => {
+                        if lits.len() != want_prefix.len() {
+                            order_ok = false;
+                        }
+                        big += n;
+                    }
+                }
+            }
+            let want_lits = [&want_prefix[..], &want_suffix[..]].concat();
+            if lits != want_lits || big != piece_len || !order_ok {
+                rep.violation("C15|pae|differs-from-specification:huge-piece", json!({"piece_lengths": [3, piece_len, 4], "fragments_of_the_long_piece": split, "small_writes_library": hx(&lits), "small_writes_specification": hx(&want_lits), "long_bytes_forwarded": big}));
+            }
+            rep.sample_class("huge-piece", 2, || d("length prefix is the 64-bit little-endian length"));
+        }
+    }
+}
+#[cfg(miri)]
+fn huge_pieces(_: &Opts, _: &mut Report) {}
+
 /// the header piece varies too: the same fragments under the suffixed payload type ("v4x.local.")
 /// in the same process, alternating with the plain header
 fn suffixed_header<B: crate::backend::Backend, P: crate::prims::Prims>(rep: &mut Report, kp: &crate::backend::KeyPair<B>, pk_raw: &[u8], key: &[u8; 32], nonce: &[u8], msg: &[u8], footer: &[u8], aad: &[u8]) {
@@ -315,6 +397,7 @@ pub fn run(opts: &Opts) {
         rep.finish(opts);
         return;
     }
+    huge_pieces(opts, &mut rep);
     let mut idx = 0u64;
     let mut table: HashMap<Vec<u8>, Vec<Vec<u8>>> = HashMap::new();
     // (1) systematic: piece counts 0..8 x fragment counts 0..4 x fragment lengths
@@ -394,7 +477,7 @@ pub fn run(opts: &Opts) {
     rep.set("sum:collision_table_entries", json!(table.len()));
     rep.set(
         "rule",
-        json!("(adapters: every second grid point and every fourth dense length is repeated under the suffixed payload type so the header piece changes within the process) piece counts 0..8 (monomorphised) x 0..4 fragments per piece x fragment lengths {0,1,7,8,9,63,64,65,255,256,600} x contents {zeros, bytes shaped like LE64 lengths, ff, random}, plus random lists and boundary-shifted / piece-dropped variants with identical concatenation; oracle = independent encoder over whole pieces, independent decoder, and a table of all encodings seen (two different piece lists must never collide); a recording WriteBytes must receive the same byte sequence as a Vec; distinct = distinct (fragment shape, piece contents)"),
+        json!("huge pieces: a piece of 2^31-1 .. 5*2^31 zero bytes (1-3 fragments) between two short pieces through a sink that keeps only the short writes: count and every length prefix must be the full 64-bit value; (adapters: every second grid point and every fourth dense length is repeated under the suffixed payload type so the header piece changes within the process) piece counts 0..8 (monomorphised) x 0..4 fragments per piece x fragment lengths {0,1,7,8,9,63,64,65,255,256,600} x contents {zeros, bytes shaped like LE64 lengths, ff, random}, plus random lists and boundary-shifted / piece-dropped variants with identical concatenation; oracle = independent encoder over whole pieces, independent decoder, and a table of all encodings seen (two different piece lists must never collide); a recording WriteBytes must receive the same byte sequence as a Vec; distinct = distinct (fragment shape, piece contents)"),
     );
     rep.set("adapters", json!("the private digest/MAC/stream-verifier adapters of all six backends are observed through the tag / signature: message, footer and assertion lengths from {0,1,7,8,9,63,64,65,127,128,129,255,256,257,600,5000}, local tokens compared byte for byte with the reference (independent PAE), signatures verified by an independent verifier over the independent PAE"));
     rep.finish(opts);
